@@ -24,3 +24,30 @@ package consolidation
 //@   ensures [hasActiveTasks] result ==> old(activeAlloc(job)) > 0
 //@   ensures [counts] preempteeJobsCounter == old(preempteeJobsCounter) + ite(result, 1, 0)
 //@ end
+
+// ---- allPodsReallocated ------------------------------------------------------------------------------------
+//@ import scn "github.com/NVIDIA/KAI-scheduler/pkg/scheduler/actions/common/solvers/scenario"
+//@ import common_info "github.com/NVIDIA/KAI-scheduler/pkg/scheduler/api/common_info"
+// The only caller (solvers.byPodSolver.handleScenarioSolution) passes a *scenario.ByNodeScenario, which embeds
+// *BaseScenario; the contract is stated for that dynamic type (call-site fact, by_pod_solver.go:189).
+//@ define baseOf(x api.ScenarioInfo) *scn.BaseScenario = unbox(x, "*scn.ByNodeScenario").BaseScenario
+//@ define scenarioOK(x api.ScenarioInfo) bool = typeis(x, "*scn.ByNodeScenario") && unbox(x, "*scn.ByNodeScenario") != nil && baseOf(x) != nil && scn.sessionJobsOK(baseOf(x)) && scn.victimsSeparate(baseOf(x)) && (forall k in baseOf(x).victims :: baseOf(x).victims[k] != nil && scn.tasksKnown(baseOf(x), baseOf(x).victims[k]))
+// C06: "consolidation evicts a pod only if the same decision re-places it on another node": the scenario
+// validator accepts iff no victim task (as re-resolved to the session's current pod) is left Releasing,
+// i.e. every evicted pod has been re-allocated/pipelined by the same statement.
+//@ define noneReleasing(b *scn.BaseScenario) bool = forall k common_info.PodGroupID, i int :: k in b.victims && 0 <= i && i < len(b.victims[k].Tasks) ==> b.victims[k].Tasks[i].Status != pod_status.Releasing
+
+//@ func allPodsReallocated
+//@   props C06
+//@   requires scenarioOK(scenario)
+//@   nopanic off
+//@   note nopanic off: a re-resolved victim task is nil when the pod is no longer listed in its job (GetVictims writes GetAllPodsMap()[uid]); excluding that needs the session-wide pod index invariant, not stated here
+//@   modifies family(baseOf(scenario).victims[""].Tasks[*])
+//@   loop 1
+//@     invariant forall k common_info.PodGroupID, i int :: k in visited && k in baseOf(scenario).victims && 0 <= i && i < len(baseOf(scenario).victims[k].Tasks) ==> baseOf(scenario).victims[k].Tasks[i].Status != pod_status.Releasing
+//@   loop 2
+//@     invariant 0 - 1 <= rangeindex && rangeindex < len(victim.Tasks)
+//@     invariant forall i int :: 0 <= i && i <= rangeindex ==> victim.Tasks[i].Status != pod_status.Releasing
+//@     decreases len(victim.Tasks) - rangeindex
+//@   ensures [acceptsIffAllReplaced] result == noneReleasing(baseOf(scenario))
+//@ end
